@@ -18,9 +18,9 @@ from dv.evidence import Recorder, finish
 from checks.nodecommon import Result, record, generic_replay
 
 PID = "C07"
-RULE = ("histories over 33 event symbols x 1..3 connections (conn 0 optionally outbound): handshakes, "
+RULE = ("histories over 36 event symbols x 1..3 connections (conn 0 optionally outbound): handshakes, "
         "good requests, requests with a missing required AVP / unknown command / unknown application / "
-        "foreign realm / no Destination-Realm / a routing-relevant AVP (Origin-Host, Origin-Realm, Destination-Realm, Destination-Host, Session-Id) repeated in a typed or untyped command, T-flagged repeats, answers nobody waits for, answers "
+        "foreign realm / no Destination-Realm / a routing-relevant AVP (Origin-Host, Origin-Realm, Destination-Realm, Destination-Host, Session-Id) repeated in a typed or untyped command, requests / DWR / DPR whose Origin-Host is not UTF-8, T-flagged repeats, answers nobody waits for, answers "
         "lacking Origin-Host or Result-Code (CEA, DWA, DPA, application), requests held by the application and "
         "answered later, requests answered with Experimental-Result instead of Result-Code (also after the connection was lost and re-established, with the peer spelling its "
         "identity in another case), node-originated requests with "
@@ -35,10 +35,10 @@ ASSUME = ["identifier values 0 and 2^32-1 are valid and are used (each special k
 SYMS = ["HS", "REQ", "REQ_missing", "REQ_unknown_cmd", "REQ_unknown_app", "REQ_foreign_realm", "REQ_no_realm",
         "REQ_T", "REQ_raise", "ANS_stray", "ANS_no_origin", "ANS_no_result", "CEA_no_origin", "CEA_stray",
         "DWA_stray", "DWA_no_origin", "DPA_stray", "DPA_no_result", "DWR", "DPR", "NODE_REQ", "NODE_REQ_ANS",
-        "ADV2", "ADV_IDLE", "REQ_hold", "SUBMIT", "RECONNECT", "REQ2_seg", "DWR_REQ_seg", "REQ_DWR_seg", "REQ_exp_result", "REQ_dup_avp", "REQ_dup_avp_T"]
+        "ADV2", "ADV_IDLE", "REQ_hold", "SUBMIT", "RECONNECT", "REQ2_seg", "DWR_REQ_seg", "REQ_DWR_seg", "REQ_exp_result", "REQ_dup_avp", "REQ_dup_avp_T", "REQ_non_utf8_origin", "DWR_non_utf8_origin", "DPR_non_utf8_origin"]
 DEFECTIVE = {"ANS_stray", "ANS_no_origin", "ANS_no_result", "CEA_no_origin", "CEA_stray", "DWA_stray",
              "DWA_no_origin", "DPA_stray", "DPA_no_result", "REQ_missing", "REQ_unknown_cmd", "REQ_unknown_app",
-             "REQ_foreign_realm", "REQ_no_realm", "REQ_raise", "REQ_T", "REQ_dup_avp", "REQ_dup_avp_T"}
+             "REQ_foreign_realm", "REQ_no_realm", "REQ_raise", "REQ_T", "REQ_dup_avp", "REQ_dup_avp_T", "REQ_non_utf8_origin", "DWR_non_utf8_origin", "DPR_non_utf8_origin"}
 
 
 def world_cfg(case):
@@ -147,6 +147,10 @@ def evaluate(case) -> Result:
                 untyped = (i // 5) % 2 == 0
                 res.classes.append(f"dup-avp:{code_}:{'untyped' if untyped else 'typed'}")
                 w.feed_msg(c, dict(base, k="REQ", extra=[dup, dup], T=s.endswith("_T"), **({"code": 999} if untyped else {})))
+            elif s in ("REQ_non_utf8_origin", "DWR_non_utf8_origin", "DPR_non_utf8_origin"):
+                # DiameterIdentity is an OctetString on the wire: octets that are not UTF-8 decode without complaint
+                bad = b"client\xff\xfe." + host.encode()
+                w.feed_msg(c, dict(base, k=s.split("_")[0], host=bad))
             elif s == "REQ_unknown_app":
                 w.feed_msg(c, dict(base, k="REQ", app=9999))
             elif s == "REQ_foreign_realm":
